@@ -141,7 +141,9 @@ impl ParsedParameters {
 
     pub fn ellps(&self, index: usize) -> Ellipsoid {
         // if 'ellps' was explicitly given, it will override 'ellps_0'
-        if index == 0 {
+        if index == 0
+            && (self.given.contains_key("ellps") || !self.given.contains_key("ellps_0"))
+        {
             if let Some(e) = self.text.get("ellps") {
                 return Ellipsoid::named(e).unwrap();
             }
